@@ -532,7 +532,7 @@ func (u *Unit) step(s *State) []*State {
 			if u.BlockProbes == nil {
 				u.BlockProbes = map[int][]*Query{}
 			}
-			if len(u.BlockProbes[f.Block.Index]) < 3 {
+			if len(u.BlockProbes[f.Block.Index]) < 12 {
 				u.BlockProbes[f.Block.Index] = append(u.BlockProbes[f.Block.Index],
 					&Query{Decls: append([]string(nil), s.Decls...), PC: append([]*Term(nil), s.PC...), Goal: False})
 			}
